@@ -654,6 +654,8 @@ def aux(rep, rng, tier, rngmod, use):
     rngmod.os = real_os
   rep.absorb(b, b.run())
 
+  boundary(rep, rng, tier, rngmod, use)
+
   # primitives
   b = Batch('rng.bitops')
   for _ in range(400):
@@ -689,6 +691,195 @@ def aux(rep, rng, tier, rngmod, use):
   finally:
     rngmod.hashlib = hp._real
   rep.absorb(b, b.run())
+
+
+# ----------------------------------------------------------------------------
+# total correctness (Props/C20Total.lean): boundary constructor parameters, n = 0, hangs
+
+class _Hang(Exception):
+  pass
+
+
+class _Exhausted(Exception):
+  """scripted os.urandom answers used up: the while loop of SubsetSum is still running."""
+
+
+def _outcome(f, secs=0.4):
+  """'ok <hex>' / 'err <ExcName>' / 'diverges' (no return within `secs`, or scripted oracle
+  exhausted).  SIGALRM-based: nothing may hang the check."""
+  import signal
+
+  def on_alarm(*_a):
+    raise _Hang()
+  old = signal.signal(signal.SIGALRM, on_alarm)
+  signal.setitimer(signal.ITIMER_REAL, secs)
+  try:
+    try:
+      r = f()
+    finally:
+      signal.setitimer(signal.ITIMER_REAL, 0)
+    return 'ok ' + H(r)
+  except (_Hang, _Exhausted):
+    return 'diverges'
+  except Exception as e:  # noqa
+    return 'err ' + type(e).__name__
+  finally:
+    signal.setitimer(signal.ITIMER_REAL, 0)
+    signal.signal(signal.SIGALRM, old)
+
+
+# what the REAL code does outside the model's parameter type (negative parameters, negative n):
+# the table in the header of Props/C20Total.lean, kept honest by `boundary` below.
+NEGATIVE_EXPECTED = [
+    # (description, constructor, n, seed, accepted outcomes)
+    ('TruncLcgRand(-1) n=8', lambda m: m.TruncLcgRand(-1), 8, 5, {'err ZeroDivisionError'}),
+    ('TruncLcgRand(-7) n=8', lambda m: m.TruncLcgRand(-7), 8, 5, {'err ZeroDivisionError'}),
+    ('TruncLcgRand(-8) n=8', lambda m: m.TruncLcgRand(-8), 8, 5, {'err ValueError'}),
+    ('TruncLcgRand(-8) n=9', lambda m: m.TruncLcgRand(-8), 9, 5, {'err IndexError', 'err ValueError'}),
+    ('TruncLcgRand(-8) n=0', lambda m: m.TruncLcgRand(-8), 0, 5, {'err ValueError'}),
+    ('Mwc(5,-256)', lambda m: m.Mwc(5, -256), 8, 5, {'err ValueError'}),
+    ('Mwc(-3,256) n=9', lambda m: m.Mwc(-3, 256), 9, 5, {'ok f1'}),
+    ('Lehmer(bits=-8) n=8', lambda m: m.Lehmer(bits=-8), 8, 5, {'err ValueError'}),
+    ('Lehmer(bits=-8) n=0', lambda m: m.Lehmer(bits=-8), 0, 5, {'ok 0'}),
+    ('Lehmer(mod=-7) n=9', lambda m: m.Lehmer(mod=-7), 9, 5, {'ok 16d'}),
+    ('Lehmer(a=-3) n=9', lambda m: m.Lehmer(a=-3), 9, 5, {'ok 1ff'}),
+    ('Lehmer(mod=0) n=0 unseeded', lambda m: m.Lehmer(mod=0), 0, None, {'err ZeroDivisionError'}),
+    ('SubsetSum(-8,4) n=8', lambda m: m.SubsetSum(-8, 4), 8, None, {'err ValueError'}),
+    ('SubsetSum(-8,4) n=0', lambda m: m.SubsetSum(-8, 4), 0, None, {'err ValueError'}),
+    ('SubsetSum(8,-1) n=8', lambda m: m.SubsetSum(8, -1), 8, None, {'diverges'}),
+    ('SubsetSum(8,-1) n=0', lambda m: m.SubsetSum(8, -1), 0, None, {'ok 0'}),
+    ('mwc64 n=-1', lambda m: m.GetRng('mwc64'), -1, 5, {'err ValueError'}),
+    ('lehmer128 n=-8', lambda m: m.GetRng('lehmer128'), -8, 5, {'err ValueError'}),
+    ('subsetsum256/16 n=-1', lambda m: m.GetRng('subsetsum256/16'), -1, 5, {'err ValueError'}),
+    ('trunclcg16 n=-1', lambda m: m.GetRng('trunclcg16'), -1, 5, {'err IndexError'}),
+    ('trunclcg16 n=-8', lambda m: m.GetRng('trunclcg16'), -8, 5, {'ok 0'}),
+    ('trunclcg16 n=-64', lambda m: m.GetRng('trunclcg16'), -64, 5, {'err ValueError'}),
+    ('java n=-1', lambda m: m.GetRng('java'), -1, 5, {'err IndexError'}),
+    ('lcgnist n=-8', lambda m: m.GetRng('lcgnist'), -8, 5, {'err ValueError'}),
+    ('xorwow n=-1', lambda m: m.GetRng('xorwow'), -1, 5, {'err ValueError'}),
+    ('xorshift* n=-64', lambda m: m.GetRng('xorshift*'), -64, 5, {'ok 0'}),
+    ('urandom n=-1', lambda m: m.GetRng('urandom'), -1, 5, {'ok 0'}),
+    ('urandom n=-8', lambda m: m.GetRng('urandom'), -8, 5, {'err ValueError'}),
+    ('mt19937 n=-1', lambda m: m.GetRng('mt19937'), -1, 5, {'err ValueError'}),
+    ('shake128 n=-8', lambda m: m.GetRng('shake128'), -8, 5, {'err SystemError', 'err ValueError'}),
+    ('pcg64 n=-1', lambda m: m.GetRng('pcg64'), -1, 5, {'err ValueError'}),
+]
+
+
+def boundary(rep, rng, tier, rngmod, use):
+  """Boundary constructor parameters of the four parametrised classes against the total model
+  `Rng.run` / `Rng.entryOk` (Model/RngTotal.lean): which parameters return, raise (which
+  exception) or do not terminate; n = 0; degenerate os.urandom answers.  Every real call runs
+  under a 0.4 s alarm."""
+  bt = Batch('rng.total')
+  be = Batch('rng.entry_ok')
+  ns = [0, 1, 7, 8, 9, 63, 64, 65]
+  seeds = [5, rng.getrandbits(130) | 1]
+  hang_budget = [14 if tier == 'quick' else 60]    # alarms actually waited for
+
+  def run_cases(kind, params, make, ns_, seeds_, tagf):
+    """returns True iff every probe with n >= 1 returned a value."""
+    all_ok = True
+    for n in ns_:
+      for seed in seeds_:
+        def f(n=n, seed=seed):
+          return make().RandomBits(n, seed=seed)
+        if hang_budget[0] <= 0 and tagf(n) .endswith('diverges?'):
+          continue
+        r = _outcome(f)
+        if r == 'diverges':
+          hang_budget[0] -= 1
+        if n >= 1 and not r.startswith('ok '):
+          all_ok = False
+        bt.add('rng.total %s %s %s %s %s' % (use, kind, ' '.join(H(x) for x in params), H(n), H(seed)), r,
+               tag='%s:%s' % (kind, r.split()[0] if r != 'diverges' else 'diverges') + (':n=0' if n == 0 else ''))
+    return all_ok
+
+  # --- TruncLcgRand(k)
+  for k in (0, 1, 2, 7, 8, 9, 16, 20, 64, 129):
+    ok = run_cases('trunclcg', [k], lambda k=k: rngmod.TruncLcgRand(k), ns, seeds, lambda n: '')
+    be.add('rng.entry_ok trunclcg %s' % H(k), 'true' if ok else 'false', tag='trunclcg')
+  # --- Mwc(a, b)
+  for bb in (0, 1, 2, 255, 256, 257, 3 * 256, 2**16, 2**16 + 256, 2**64, 2**63):
+    for a in (0, 1, 5, 2**64 - 742):
+      ok = run_cases('mwc', [a, bb], lambda a=a, bb=bb: rngmod.Mwc(a, bb), ns, seeds[:1], lambda n: '')
+      be.add('rng.entry_ok mwc %s %s' % (H(a), H(bb)), 'true' if ok else 'false', tag='mwc')
+  # --- Lehmer(a, mod, bits); bits = 0 with mod != 0 and n >= 1 does not terminate
+  for (a, m, bits) in ((3, 7, 8), (3, 7, 16), (7, 2**128, 64), (3, 1, 8), (0, 7, 8), (3, 0, 8), (3, 0, 16),
+                      (3, 0, 0), (3, 7, 0), (5, 2**61 - 1, 0), (3, 7, 12), (3, 7, 4), (3, 0, 4)):
+    hangs = (bits == 0 and m != 0)
+    ok = run_cases('lehmer', [a, m, bits], lambda a=a, m=m, bits=bits: rngmod.Lehmer(a, m, bits),
+                   [0, 1, 9] if hangs else ns, seeds[:1] if hangs else seeds,
+                   lambda n, hangs=hangs: 'diverges?' if (hangs and n >= 1) else '')
+    be.add('rng.entry_ok lehmer %s %s %s' % (H(a), H(m), H(bits)), 'true' if ok else 'false', tag='lehmer')
+  rep.absorb(bt, bt.run())
+
+  # --- SubsetSum(bits, k) with scripted os.urandom answers (no alarm needed: the script ends)
+  bs = Batch('rng.total')
+  real_os = rngmod.os
+  P = OsProxy(real_os)
+  rngmod.os = P
+
+  def sentinel(_k):
+    P.script.insert(0, sentinel)
+    raise _Exhausted()
+  try:
+    for (bits, k, kind) in ((256, 0, 'k=0'), (8, 0, 'k=0'), (0, 4, 'bits=0'), (0, 0, 'bits=0'), (0, 9, 'bits=0'),
+                            (8, 3, 'zero-sels'), (16, 9, 'zero-sels'), (8, 3, 'zero-gens'), (16, 9, 'mixed'),
+                            (8, 3, 'enough'), (12, 3, 'ctor'), (4, 0, 'ctor')):
+      all_ok = True
+      for n in (0, 1, 8, 9, 40):
+        nb, sl = bits // 8, (k + 7) // 8
+        if kind == 'zero-gens':
+          gens = [b'\x00' * nb] * k
+        else:
+          gens = [real_os.urandom(nb) for _ in range(max(k, 0))]
+        if kind == 'zero-sels':
+          sels = [b'\x00' * sl] * 25
+        elif kind == 'mixed':     # too few non-zero selections for n = 40 (needs 3), enough for n <= 16
+          sels = [b'\x00' * sl, b'\x01' + b'\x00' * (sl - 1)] + [b'\x00' * sl] * 10
+        elif kind == 'enough':
+          sels = [b'\x00' * sl] * 3 + [b'\x05' * sl] * 8
+        else:
+          sels = [real_os.urandom(sl) for _ in range(25)]
+        del P.log[:]
+        del P.script[:]
+        P.script.extend(list(gens) + list(sels) + [sentinel])
+
+        def f(bits=bits, k=k, n=n):
+          return rngmod.SubsetSum(bits, k).RandomBits(n)
+        r = _outcome(f, 2.0)
+        del P.script[:]
+        if n >= 1 and not r.startswith('ok '):
+          all_ok = False
+        g = [LEi(x) for x in gens]
+        # the model gets every answer that was prepared (the real loop stops reading when done)
+        bs.add('rng.total %s subsetsum %s %s %s 5 %s %s' % (use, H(bits), H(k), H(n), L(g), L([LEi(x) for x in sels])),
+               r, tag='subsetsum:%s:%s' % (kind, r.split()[0]) + (':n=0' if n == 0 else ''))
+      if kind in ('k=0', 'bits=0', 'ctor'):
+        be.add('rng.entry_ok subsetsum %s %s' % (H(bits), H(k)), 'true' if all_ok else 'false', tag='subsetsum')
+  finally:
+    rngmod.os = real_os
+  for (bits, k) in ((8, 3), (16, 9), (256, 16), (8, 1)):
+    ok = all(_outcome(lambda bits=bits, k=k, n=n: rngmod.SubsetSum(bits, k).RandomBits(n), 2.0).startswith('ok ')
+             for n in (1, 8, 9, 40))
+    be.add('rng.entry_ok subsetsum %s %s' % (H(bits), H(k)), 'true' if ok else 'false', tag='subsetsum:real-urandom')
+  rep.absorb(bs, bs.run())
+  rep.absorb(be, be.run())
+
+  # --- outside the model's parameter type: the documented table must still describe the code
+  neg = {}
+  for desc, mk, n, seed, accepted in NEGATIVE_EXPECTED:
+    r = _outcome(lambda mk=mk, n=n, seed=seed: mk(rngmod).RandomBits(n, seed=seed), 0.4)
+    neg[desc] = r
+    rep.evaluations += 1
+    if r not in accepted:
+      rep.broken.append('C20Total header table out of date: %s -> %s (documented: %s)' % (desc, r, sorted(accepted)))
+  rep.extra['negative_parameter_outcomes'] = neg
+  rep.extra['non_terminating_parameters'] = (
+      'Lehmer(bits=0, mod!=0).RandomBits(n>=1), SubsetSum(bits, k<=0).RandomBits(n>=1), '
+      'SubsetSum(0, k).RandomBits(n>=1): no return within the alarm / scripted oracle; modelled as '
+      '`diverges` (theorems C20Total.lehmer_bits_zero_never_terminates, subsetSum_never_ends); none is in rng.RNGS')
 
 
 def search(rep, rng, tier):
